@@ -247,7 +247,7 @@ func (e *executableWorkflow) Execute(ctx context.Context, serializedInput any) (
 			return e.handleOutput(l, outputDataEntry)
 		case err := <-l.recentErrors: // The context is done, so instead just check for errors.
 			// Put it back in the channel
-			l.recentErrors <- err
+			l.reportError(err)
 			lastErrors := l.handleErrors()
 			l.logger.Errorf("workflow failed with error %s", err.Error())
 			return "", nil, lastErrors
@@ -359,6 +359,17 @@ errGatherLoop:
 	}
 }
 
+// reportError records an error for the caller of Execute without ever blocking.
+// The only receiver of recentErrors is the goroutine that called Execute, and most callers hold the
+// run lock, so a blocking send on a full channel would stall the whole run.
+func (l *loopState) reportError(err error) {
+	select {
+	case l.recentErrors <- err:
+	default:
+		l.logger.Warningf("Too many unread workflow errors; dropping error: %s", err.Error())
+	}
+}
+
 func (l *loopState) handleErrors() error {
 	lastErr := l.getLastError()
 	if lastErr != nil {
@@ -389,14 +400,14 @@ func (l *loopState) onStageComplete(
 	stageNode, err := l.dag.GetNodeByID(GetStageNodeID(stepID, *previousStage))
 	if err != nil {
 		l.logger.Errorf("Failed to get stage node ID %s (%w)", GetStageNodeID(stepID, *previousStage), err)
-		l.recentErrors <- fmt.Errorf("failed to get stage node ID %s (%w)", GetStageNodeID(stepID, *previousStage), err)
+		l.reportError(fmt.Errorf("failed to get stage node ID %s (%w)", GetStageNodeID(stepID, *previousStage), err))
 		l.cancel()
 		return
 	}
 	l.logger.Debugf("Resolving node %q in the DAG on stage complete", stageNode.ID())
 	if err := stageNode.ResolveNode(dgraph.Resolved); err != nil {
 		errMessage := fmt.Errorf("failed to resolve stage node ID %s (%s)", stageNode.ID(), err.Error())
-		l.recentErrors <- errMessage
+		l.reportError(errMessage)
 		l.cancel()
 		return
 	}
@@ -404,7 +415,7 @@ func (l *loopState) onStageComplete(
 		outputNode, err := l.dag.GetNodeByID(GetOutputNodeID(stepID, *previousStage, *previousStageOutputID))
 		if err != nil {
 			l.logger.Errorf("Failed to get output node ID %s (%w)", GetStageNodeID(stepID, *previousStage), err)
-			l.recentErrors <- fmt.Errorf("failed to get output node ID %s (%w)", GetStageNodeID(stepID, *previousStage), err)
+			l.reportError(fmt.Errorf("failed to get output node ID %s (%w)", GetStageNodeID(stepID, *previousStage), err))
 			l.cancel()
 			return
 		}
@@ -413,7 +424,7 @@ func (l *loopState) onStageComplete(
 		l.logger.Debugf("Resolving output node %q in the DAG", outputNode.ID())
 		if err := outputNode.ResolveNode(dgraph.Resolved); err != nil {
 			l.logger.Errorf("Failed to resolve output node ID %s (%w)", outputNode.ID(), err)
-			l.recentErrors <- fmt.Errorf("failed to resolve output node ID %s (%w)", outputNode.ID(), err)
+			l.reportError(fmt.Errorf("failed to resolve output node ID %s (%w)", outputNode.ID(), err))
 			l.cancel()
 			return
 		}
@@ -513,9 +524,9 @@ func (l *loopState) notifySteps() { //nolint:gocognit
 				// cancel the context.
 				delete(l.waitingOutputs, nodeID)
 				if len(l.waitingOutputs) == 0 && !l.outputDone {
-					l.recentErrors <- &ErrNoMorePossibleOutputs{
+					l.reportError(&ErrNoMorePossibleOutputs{
 						l.dag,
-					}
+					})
 					l.cancel()
 				}
 			} else {
@@ -560,7 +571,7 @@ func (l *loopState) notifySteps() { //nolint:gocognit
 			// Tries to match the schema
 			if _, err := nodeItem.DataSchema.Unserialize(untypedInputData); err != nil {
 				l.logger.Errorf("Bug: schema evaluation resulted in invalid data for %s (%v)", nodeID, err)
-				l.recentErrors <- fmt.Errorf("bug: schema evaluation resulted in invalid data for %s (%w)", nodeID, err)
+				l.reportError(fmt.Errorf("bug: schema evaluation resulted in invalid data for %s (%w)", nodeID, err))
 				l.cancel()
 				return
 			}
@@ -583,7 +594,7 @@ func (l *loopState) notifySteps() { //nolint:gocognit
 				typedInputData,
 			); err != nil {
 				l.logger.Errorf("Bug: failed to provide input to step %s (%w)", nodeItem.StepID, err)
-				l.recentErrors <- fmt.Errorf("bug: failed to provide input to step %s (%w)", nodeItem.StepID, err)
+				l.reportError(fmt.Errorf("bug: failed to provide input to step %s (%w)", nodeItem.StepID, err))
 				l.cancel()
 				return
 			}
@@ -658,9 +669,9 @@ func (l *loopState) checkForDeadlocks(retries int, wg *sync.WaitGroup) {
 	)
 	if counters.starting == 0 && counters.running == 0 && !hasReadyNodes && !l.outputDone {
 		if retries <= 0 {
-			l.recentErrors <- &ErrNoMorePossibleSteps{
+			l.reportError(&ErrNoMorePossibleSteps{
 				l.dag,
-			}
+			})
 			l.logger.Debugf("DAG:\n%s", l.dag.Mermaid())
 			l.logger.Errorf("TERMINATING WORKFLOW; Errors below this error may be due to the early termination")
 			l.cancel()
